@@ -199,13 +199,26 @@ func ReassembleTOAST(chunks []TOASTChunk, valueID uint32, ptr *TOASTPointer) []b
 	return data
 }
 
+// allocHint bounds the up-front allocation of a decompressor: rawSize comes from an 18-byte
+// pointer and can claim up to 2^32 bytes whatever the size of the stream; append grows the
+// result beyond the hint when the stream really produces more
+func allocHint(rawSize, inputLen int) int {
+	if rawSize < 0 {
+		return 0
+	}
+	if limit := 8*inputLen + 4096; rawSize > limit {
+		return limit
+	}
+	return rawSize
+}
+
 // decompressPGLZ decompresses PostgreSQL's pglz format
 func decompressPGLZ(data []byte, rawSize int) ([]byte, error) {
 	if len(data) < 4 {
 		return nil, fmt.Errorf("data too short")
 	}
 
-	result := make([]byte, 0, rawSize)
+	result := make([]byte, 0, allocHint(rawSize, len(data)))
 	pos := 0
 
 	for pos < len(data) && len(result) < rawSize {
@@ -258,7 +271,7 @@ func decompressLZ4(data []byte, rawSize int) ([]byte, error) {
 		return nil, fmt.Errorf("data too short")
 	}
 
-	result := make([]byte, 0, rawSize)
+	result := make([]byte, 0, allocHint(rawSize, len(data)))
 	pos := 0
 
 	for pos < len(data) && len(result) < rawSize {
